@@ -102,12 +102,39 @@ def inline_new_helpers(raw, vocabulary, strip_lt, log=None):
                 t = blk["term"]
                 if t["k"] == "call":
                     cp, fn = _callee_path(t, strip_lt)
-                    if cp in new and strip_lt(c["path"]) != cp and not [x for x in fn.get("targs", []) if not x.startswith("'")] and len(t.get("args", [])) == by_path[cp]["argc"]:
+                    generic = [x for x in fn.get("targs", []) if not x.startswith("'")]
+                    if generic and cp and cp.startswith("<") and fn.get("trait") and len(generic) == 1 and cp in new:
+                        generic = []  # a method of a concrete impl: the one type argument is the trait's Self
+                    if generic and len(generic) == 1 and fn.get("trait") and "Self" in (by_path.get(cp, {}).get("sig") or "") and cp in new:
+                        # a default method of a trait of the crate that no impl overrides: its one body serves every
+                        # receiver (its calls on Self stay calls of the trait's methods, as in the caller)
+                        nm = cp.rsplit("::", 1)[1]
+                        overridden = any(strip_lt(b2["path"]).startswith("<") and strip_lt(b2["path"]).endswith(" as %s>::%s" % (fn["trait"], nm)) for b2 in bodies)
+                        if not overridden:
+                            generic = []
+                    if cp in new and strip_lt(c["path"]) != cp and not generic and len(t.get("args", [])) == by_path[cp]["argc"]:
                         f = by_path[cp]
                         lo, bo, po = len(c["locals"]), len(c["blocks"]), len(c.get("promoted", []))
                         c["locals"].extend(copy.deepcopy(f["locals"]))
                         c.setdefault("promoted", []).extend(copy.deepcopy(f.get("promoted", [])))
                         fb = _remap(f["blocks"], lo, bo, po)
+                        self_ty = [x for x in fn.get("targs", []) if not x.startswith("'")]
+                        if fn.get("trait") and len(self_ty) == 1 and not self_ty[0].startswith("dyn ") and "Self" in (f.get("sig") or ""):
+                            # a default method spliced into a concrete receiver: its calls on Self are the calls of
+                            # that type's impl
+                            for nb in fb:
+                                nt = nb["term"]
+                                if nt["k"] == "call" and nt.get("func", {}).get("k") == "const":
+                                    ifn = nt["func"]["fn"]
+                                    if ifn.get("trait") == fn["trait"] and ifn.get("targs") == ["Self"]:
+                                        target = "<%s as %s>::%s" % (strip_lt(self_ty[0]), fn["trait"], ifn["def"].rsplit("::", 1)[1])
+                                        if target in by_path:
+                                            ifn["res"] = target
+                                            ifn["res_inst"] = target
+                                            ifn["inst"] = target
+                                            ifn["targs"] = [self_ty[0]]
+                                            ifn["res_local"] = True
+                                            ifn["res_kind"] = "item"
                         cleanup = blk.get("cleanup", False)
                         for nb in fb:
                             if cleanup:
